@@ -48,6 +48,14 @@ def check(res):
         refuse_words += [w + "\0x", w + "\0", "\0" + w, w + "\0 " + w, w + " ", w.upper() if w.upper() != w else w + "_"]
         # decorated spellings (vendor keywords and the like) are other names
         refuse_words += ["__" + w, "__" + w + "__", w + "__", "_" + w, w + "_", "_" + w + "_", "__" + w + "_", w.capitalize() if w.capitalize() != w else "_" + w + "__"]
+    # every C++ keyword, contextual keyword and vendor spelling that is not a basic name of the table asked
+    refuse_words += """abstract pure final override sealed import module export_ new delete deleted default defaulted noexcept throw try catch
+        alignas alignof asm auto bool break case char char8_t char16_t char32_t class concept const_cast continue co_await co_return co_yield
+        decltype do double dynamic_cast else enum false float for goto if int long namespace nullptr operator reinterpret_cast requires return short
+        signed sizeof static_assert static_cast struct switch template this true typeid typename union unsigned using void wchar_t while
+        constinit consteval_ immutable readonly transient synchronized native strictfp internal partial virtual_ override_ __declspec __attribute__
+        __cdecl __stdcall __fastcall __thiscall __vectorcall _Noreturn _Atomic _Thread_local restrict_ __restrict __restrict__ __volatile__ __const
+        __inline __inline__ __forceinline __extension__ interface abstract_ =0_ =default =delete = 0 == pure_virtual""".split()
     for i in range(300 if res.tier == "quick" else 5000):
         ln = rnd.randrange(1, 12)
         refuse_words.append("".join(rnd.choice("abcdefghijklmnopqrstuvwxyz_=0+ ") for _ in range(ln)))
